@@ -2,10 +2,12 @@
 # Sensitivity harness (not a registered check): applies a patch to a scratch worktree of /repo,
 # builds a copy of the simulator against it and runs the named checks at quick size.
 # usage: mutate.sh <patch> <ID> [ID...]     prints one line per check: CAUGHT / MISSED / ERROR
-# env MUT_WT / MUT_SIM / MUT_SRC: scratch worktree, scratch simulator copy, simulator source (to run two at once)
+# env MUT_WT / MUT_SIM / MUT_SRC: scratch worktree, scratch simulator copy, simulator source (to run two at once);
+# when /tmp/sim_stable/sim exists (a copy of the simulator taken at a commit) it is the default source, so that
+# a pipeline running in the background is not disturbed by edits in progress
 set -u
 PATCH="$(realpath "$1")"; shift
-WT=${MUT_WT:-/tmp/wt_mut}; SIM=${MUT_SIM:-/tmp/mut_sim}; SRC=${MUT_SRC:-/verif/sim}
+WT=${MUT_WT:-/tmp/wt_mut}; SIM=${MUT_SIM:-/tmp/mut_sim}; SRC=${MUT_SRC:-$( [ -d /tmp/sim_stable/sim ] && echo /tmp/sim_stable/sim || echo /verif/sim )}
 git -C /repo worktree remove --force "$WT" >/dev/null 2>&1
 git -C /repo worktree add --detach "$WT" >/dev/null 2>&1 || { echo "ERROR worktree"; exit 2; }
 if ! git -C "$WT" apply "$PATCH"; then echo "ERROR patch does not apply: $PATCH"; git -C /repo worktree remove --force "$WT"; exit 2; fi
